@@ -32,7 +32,7 @@ int main(int argc, char **argv) {
         cv_seam_cells(&cv, res, (int)per);
         cv_random_cells(&cv, res, quick ? 200 : 3000);
         if (res >= 9) cv_icosa_band_cells(&cv, res, quick ? (res >= 14 ? 3 : 1) : 8);      /* face selection either side of the edges */
-        cv_antimeridian_cells(&cv, res, quick ? 3 : 20); cv_sparse_digit_sample(&cv, res, quick ? 6 : 40); cv_coarse_boundary_sample(&cv, res, quick ? 8 : 40);
+        cv_antimeridian_cells(&cv, res, quick ? 3 : 20); cv_sparse_digit_sample(&cv, res, quick ? 6 : 40); cv_coarse_boundary_sample(&cv, res, quick ? 8 : 40); if (res >= 8 || !quick) cv_face_centre_cells(&cv, res, quick ? 1 : 4);
         /* the poles: the cells containing them and their 3-disks (coordinates lose resolution there) */
         for (int sgn = -1; sgn <= 1; sgn += 2) { LatLng pl = {sgn * M_PI_2, 0}; H3Index ph; if (!latLngToCell(&pl, res, &ph)) { H3Index d[37] = {0}; if (!gridDisk(ph, 3, d)) for (int q = 0; q < 37; q++) if (d[q]) cv_push(&cv, d[q]); } }
         qsort(cv.v, cv.n, 8, cmp_u64);
